@@ -116,7 +116,7 @@ func enough(in, out, fee *big.Int) bool {
 
 func checkID(ctx *pbt.Ctx, c IDCase) error {
 	m := expandID(c)
-	if !quoteOK(c.Quote) {
+	if !quoteWide(c.Quote) {
 		ctx.Discard("quote outside domain")
 		return nil
 	}
@@ -192,6 +192,18 @@ func checkID(ctx *pbt.Ctx, c IDCase) error {
 	}
 
 	// -- 2. fee sufficiency on the actual size -----------------------------------
+	if quoteIsWide(c.Quote) {
+		if !feeFits(want, c.Quote) {
+			ctx.Discard("bytes x satoshis does not fit uint64")
+			return nil
+		}
+		ctx.Label("fee-unit-numbers>10^6")
+		for _, u := range []ref.FeeUnit{c.Quote.Std, c.Quote.Data} {
+			if u.Sat > 1<<53 || u.Bytes > 1<<53 {
+				ctx.Label("fee-unit-numbers>2^53")
+			}
+		}
+	}
 	feeAct, _, _ := ref.FeeCalc(want, c.Quote)
 	ok, err := tx.IsFeePaidEnough(fq)
 	if err != nil {
@@ -306,6 +318,10 @@ func checkID(ctx *pbt.Ctx, c IDCase) error {
 		}
 	}
 	wantEst := ref.FeeSizesOf(fin)
+	if quoteIsWide(c.Quote) && !feeFits(wantEst, c.Quote) {
+		ctx.Discard("bytes x satoshis does not fit uint64")
+		return nil
+	}
 	if uint64(estSize) != wantEst.Total {
 		return fmt.Errorf("EstimateSize = %d, documented estimate (107-byte script per unsigned input) = %d", estSize, wantEst.Total)
 	}
@@ -338,6 +354,85 @@ func genUnit(t *rapid.T, label string) ref.FeeUnit {
 		return rapid.SampledFrom([]ref.FeeUnit{{1, 1}, {500, 1000}, {50, 1}, {5, 1}, {2, 1}, {0, 1}, {0, 1000}, {5000, 1}, {5000, 1000}, {1, 1000}, {3, 2}, {999, 1000}, {1001, 1000}}).Draw(t, label)
 	}
 	return ref.FeeUnit{Sat: rapid.IntRange(0, 5000).Draw(t, label+"_sat"), Bytes: rapid.IntRange(1, 1000).Draw(t, label+"_bytes")}
+}
+
+// quoteWide is the domain of identities and history: positive byte denominators and
+// non-negative satoshi amounts over the whole range of the fields (Go int). The fee is stated as
+// floor(bytes x rate); the library computes bytes*satoshis/bytes in uint64, so a case is judged
+// only when the exact products (and their sum) fit uint64 - see feeFits.
+func quoteWide(q ref.FeeQuote) bool {
+	for _, u := range []ref.FeeUnit{q.Std, q.Data} {
+		if u.Bytes < 1 || u.Sat < 0 {
+			return false
+		}
+	}
+	return true
+}
+
+func quoteIsWide(q ref.FeeQuote) bool {
+	for _, u := range []ref.FeeUnit{q.Std, q.Data} {
+		if u.Bytes > 1000000 || u.Sat > 1000000 {
+			return true
+		}
+	}
+	return false
+}
+
+// feeFits reports whether bytes x satoshis fits uint64 for both fee types, and the two floored
+// fees add up below 2^64.
+func feeFits(sz ref.FeeSizes, q ref.FeeQuote) bool {
+	for _, p := range [][2]uint64{{sz.Std, uint64(q.Std.Sat)}, {sz.Data, uint64(q.Data.Sat)}} {
+		if !new(big.Int).Mul(new(big.Int).SetUint64(p[0]), new(big.Int).SetUint64(p[1])).IsUint64() {
+			return false
+		}
+	}
+	total, _, _ := ref.FeeCalc(sz, q)
+	return total.IsUint64()
+}
+
+// genUnitWide draws a fee unit with numbers from the upper part of the int range, as a quote
+// that arrives as JSON may carry them: around 2^53 (the last integer a float64 counts exactly),
+// 2^54, 2^55, 2^62 and the largest int, numerator and denominator a few units apart.
+func genUnitWide(t *rapid.T, label string) ref.FeeUnit {
+	base := rapid.SampledFrom([]int{1 << 53, 1 << 53, 1 << 53, 1 << 54, 1 << 55, 1 << 62, 1<<63 - 1}).Draw(t, label+"_base")
+	near := func(l string) int {
+		d := rapid.IntRange(-3, 3).Draw(t, l)
+		if base == 1<<63-1 && d > 0 {
+			d = -d
+		}
+		return base + d
+	}
+	switch rapid.IntRange(0, 3).Draw(t, label+"_wk") {
+	case 0, 1: // a rate next to 1 sat/byte written with huge numbers
+		return ref.FeeUnit{Sat: near(label + "_ds"), Bytes: near(label + "_db")}
+	case 2: // a tiny rate: few satoshis per a huge number of bytes
+		return ref.FeeUnit{Sat: rapid.IntRange(0, 5000).Draw(t, label+"_sat"), Bytes: near(label + "_db")}
+	}
+	// a huge numerator over a large denominator
+	return ref.FeeUnit{Sat: near(label + "_ds"), Bytes: 1<<40 + rapid.IntRange(-3, 3).Draw(t, label+"_db40")}
+}
+
+// genQuoteWide is genQuote, with one or both mining rates written with huge numbers in about one
+// quote in ten; such quotes arrive through JSON more often than not.
+func genQuoteWide(t *rapid.T) ref.FeeQuote {
+	q := genQuote(t)
+	switch rapid.IntRange(0, 19).Draw(t, "wide") {
+	case 7:
+		q.Std = genUnitWide(t, "wstd")
+	case 11:
+		q.Data = genUnitWide(t, "wdata")
+	case 13:
+		q.Std, q.Data = genUnitWide(t, "wstd"), genUnitWide(t, "wdata")
+	default:
+		return q
+	}
+	if rapid.IntRange(0, 2).Draw(t, "wide_json") != 0 {
+		q.Build = []int{ref.FeeBuildUnmarshal, ref.FeeBuildUsedBefore}[rapid.IntRange(0, 1).Draw(t, "wide_build")]
+	}
+	if q.Build == ref.FeeBuildShared {
+		q.Data, q.DataRelay = q.Std, q.StdRelay
+	}
+	return q
 }
 
 func genQuote(t *rapid.T) ref.FeeQuote {
@@ -555,7 +650,7 @@ func genIDCase(t *rapid.T) IDCase {
 		}
 		c.Tx.Out = append(c.Tx.Out, o)
 	}
-	c.Quote = genQuote(t)
+	c.Quote = genQuoteWide(t)
 	// element counts around the point where the count prefix takes three bytes, independently
 	// for inputs and outputs
 	if rapid.IntRange(0, 24).Draw(t, "many") == 0 {
@@ -690,6 +785,31 @@ type SignCase struct {
 	Tx        ref.Tx    `json:"tx"`                // inputs: txid/vout/seq/prev_sats (spent script derived from the key); outputs as given
 	RepIn     int       `json:"rep_in,omitempty"`  // further copies of the last input (same key, own txid)
 	RepOut    int       `json:"rep_out,omitempty"` // further copies of the last output
+	// Forms[i] is the encoding of input i's public key whose HASH160 the spent P2PKH script pays
+	// to: 0 compressed, 1 uncompressed (legacy wallets), 2 hybrid. Missing entries repeat the
+	// last one (compressed if there is none).
+	Forms []int `json:"forms,omitempty"`
+}
+
+func (c SignCase) form(i int) int {
+	switch {
+	case i < len(c.Forms):
+		return c.Forms[i]
+	case len(c.Forms) > 0:
+		return c.Forms[len(c.Forms)-1]
+	}
+	return 0
+}
+
+// keyEncoding is the public key in one of the encodings a P2PKH output can commit to.
+func keyEncoding(pub *bec.PublicKey, form int) []byte {
+	switch form {
+	case 1:
+		return pub.SerialiseUncompressed()
+	case 2:
+		return pub.SerialiseHybrid()
+	}
+	return pub.SerialiseCompressed()
 }
 
 func expandSign(c SignCase) SignCase {
@@ -766,7 +886,8 @@ func checkSign(ctx *pbt.Ctx, c SignCase) error {
 		}
 		priv, pub := bec.PrivKeyFromBytes(bec.S256(), c.Keys[i])
 		privs[i] = priv
-		ls := ref.FeeP2PKH(hash160(pub.SerialiseCompressed()))
+		ls := ref.FeeP2PKH(hash160(keyEncoding(pub, c.form(i))))
+		ctx.Labelf("spent-script-pays-to-key-form=%d", c.form(i))
 		g.byScript[hex.EncodeToString(ls)] = priv
 		if err := tx.From(hex.EncodeToString(in.TxID), in.Vout, hex.EncodeToString(ls), in.PrevSats); err != nil {
 			return fmt.Errorf("harness: From: %v", err)
@@ -811,17 +932,24 @@ func checkSign(ctx *pbt.Ctx, c SignCase) error {
 	if tx.Size() != real {
 		return fmt.Errorf("Size() = %d after signing, reference codec says %d", tx.Size(), real)
 	}
-	for i, in := range after.In {
+	for _, in := range after.In {
 		u := in.Unlock
-		// push(sig||sighash) push(33-byte key)
-		if len(u) < 2 || int(u[0]) >= 0x4c || len(u) != 1+int(u[0])+1+33 || u[1+int(u[0])] != 33 {
-			return fmt.Errorf("input %d: unlocking script %x is not push(signature) push(33-byte key)", i, []byte(u))
+		// what the signer pushes is its business (whether it verifies is C04's); only the size counts here
+		if len(u) >= 2 && int(u[0]) < 0x4c && len(u) > 1+int(u[0]) {
+			ctx.Labelf("siglen+1=%d", int(u[0]))
+			ctx.Labelf("pushed-key-len=%d", len(u)-2-int(u[0]))
 		}
-		ctx.Labelf("siglen+1=%d", int(u[0]))
 		ctx.Labelf("unlock-len=%d", len(u))
+		if len(u) > ref.FeeUnlockP2PKHLen && est >= real {
+			ctx.Label("unlock-longer-than-placeholder-but-estimate-holds")
+		}
 	}
 	if est < real {
-		return fmt.Errorf("EstimateSize before signing = %d < %d = real size once signed (%d inputs, %d signed before estimating)", est, real, n, nPre)
+		forms := make([]int, n)
+		for i := range forms {
+			forms[i] = c.form(i)
+		}
+		return fmt.Errorf("EstimateSize before signing = %d < %d = real size once signed by the library (%d inputs, %d signed before estimating; spent scripts pay to key forms %v, 0 compressed / 1 uncompressed / 2 hybrid; unlocking scripts of %d.. bytes)", est, real, n, nPre, forms, len(after.In[0].Unlock))
 	}
 	if estT.TotalBytes < uint64(real) {
 		return fmt.Errorf("EstimateSizeWithTypes.TotalBytes = %d < %d = real size once signed", estT.TotalBytes, real)
@@ -864,6 +992,7 @@ func genSignCase(t *rapid.T) SignCase {
 		c.Keys = append(c.Keys, k)
 		c.Presigned = append(c.Presigned, partial && rapid.Bool().Draw(t, "pre"))
 		c.Tx.In = append(c.Tx.In, ref.In{TxID: gen.Bytes(t, 32, "txid"), Vout: gen.U32(t, "vout"), Seq: 0xffffffff, PrevSats: rapid.Uint64Range(0, 100000000).Draw(t, "sats")})
+		c.Forms = append(c.Forms, []int{0, 0, 1, 2}[rapid.IntRange(0, 3).Draw(t, "keyform")])
 	}
 	nout := rapid.IntRange(0, 3).Draw(t, "nout")
 	for i := 0; i < nout; i++ {
